@@ -15,13 +15,17 @@ open OH.Model OH.Model.Peg OH.Model.Parser OH.Generated.Grammar OH.Proofs.Syn.Wi
 /-- no year, month-day or week selector -/
 def wideEmpty (d : DaySelector) : Bool := d.year.isEmpty && d.monthday.isEmpty && d.week.isEmpty
 
+/-- the special case of `Print.daySelector`: a single plain year in front of a month-day selector that
+does not start with a year is written `2020-2020` (`2020Jan` would be read as the month range of 2020) -/
+def yearDash : List YearRange → List MonthdayRange → List Char
+  | [y], first :: _ =>
+    if y.lo = y.hi ∧ y.step = 1 ∧ !Print.startsWithYear first then '-' :: Print.natStr y.hi else []
+  | _, _ => []
+
 /-- what `Print.daySelector` writes for the years, month days and weeks -/
 def wideText (d : DaySelector) : List Char :=
   Print.selector Print.yearRange d.year
-    ++ (match d.year, d.monthday with
-        | [y], first :: _ =>
-          if y.lo = y.hi ∧ y.step = 1 ∧ !Print.startsWithYear first then '-' :: Print.natStr y.hi else []
-        | _, _ => [])
+    ++ yearDash d.year d.monthday
     ++ Print.selector Print.monthdayRange d.monthday
     ++ (if !d.week.isEmpty then
           (if !d.year.isEmpty || !d.monthday.isEmpty then [' '] else [])
@@ -32,7 +36,7 @@ theorem wideText_empty (d : DaySelector) (h : wideEmpty d = true) : wideText d =
   obtain ⟨y, m, w, wd⟩ := d
   simp only [wideEmpty, Bool.and_eq_true, List.isEmpty_iff] at h
   obtain ⟨⟨rfl, rfl⟩, rfl⟩ := h
-  simp [wideText, Print.selector]
+  simp [wideText, yearDash, Print.selector]
 
 theorem daySelector_eq (d : DaySelector) :
     Print.daySelector d
@@ -43,7 +47,13 @@ theorem daySelector_eq (d : DaySelector) :
     simp [Print.daySelector, wideEmpty, h]
   · have h' : wideEmpty d = false := by simpa using h
     simp only [wideEmpty] at h'
-    simp only [Print.daySelector, wideEmpty, h', wideText, wdSel]
+    have e : (match d.year, d.monthday with
+        | [y], first :: _ =>
+          if y.lo = y.hi ∧ y.step = 1 ∧ !Print.startsWithYear first then '-' :: Print.natStr y.hi else []
+        | _, _ => []) = yearDash d.year d.monthday := by
+      unfold yearDash
+      split <;> simp_all
+    simp only [Print.daySelector, wideEmpty, h', wideText, wdSel, e]
     simp [List.append_assoc]
 
 /-- the selector part of a printed rule -/
@@ -142,10 +152,9 @@ theorem timeSel_head2 (ts : List TimeSpan) (hts : okTimes ts = true) :
     simp only [okSpan, Bool.and_eq_true] at h
     have e : ∀ X, Print.time t.start = X → ∃ Y, timeSel (t :: tl) = X ++ Y := by
       intro X hX
-      refine ⟨_, ?_⟩
       rw [timeSel, selector_cons, Print.timeSpan, hX]
       simp only [List.append_assoc]
-      rfl
+      exact ⟨_, rfl⟩
     rcases time_head2 t.start h.1.1 with ⟨a, b, cs, ha, hb, et⟩ | ⟨c, cs, et, hc⟩
     · obtain ⟨Y, eY⟩ := e _ et
       exact .inl ⟨a, b, cs ++ Y, ha, hb, by rw [eY]; rfl⟩
@@ -193,9 +202,11 @@ theorem digit_facts (c : Char) (h0 : '0' ≤ c) (h9 : c ≤ '9') :
     rcases hm with e | e | e | e | e | e | e | e <;> (subst e; revert h0 h9; decide)
   all_goals (intro e; subst e; revert h0 h9; decide)
 
-theorem run_year_none_time (a b : Nat) (ha : a < 10) (hb : b < 10) (r : List Char) :
-    run g_year false (dc a :: dc b :: ':' :: r) = none := by
-  simp [g_year, PExpr.rep, peg]
+/-- a year has four digits: `HH:MM` is not one -/
+theorem run_year_none_time (x y : Char) (r : List Char) :
+    run g_year false (x :: y :: ':' :: r) = none := by
+  by_cases h1 : '1' = x <;> by_cases h2 : '9' = y <;> by_cases h3 : ('2' ≤ x ∧ x ≤ '9') <;>
+    by_cases h4 : ('0' ≤ y ∧ y ≤ '9') <;> simp [g_year, PExpr.rep, peg, h1, h2, h3, h4]
 
 theorem noWideStart_timeSel (ts : List TimeSpan) (hts : okTimes ts = true) (rest : List Char) :
     NoWideStart (timeSel ts ++ rest) := by
@@ -203,8 +214,11 @@ theorem noWideStart_timeSel (ts : List TimeSpan) (hts : okTimes ts = true) (rest
   · rw [e]
     obtain ⟨h0, h9⟩ := dc_digit a ha
     obtain ⟨f1, f2, f3, f4, f5, f6, -⟩ := digit_facts (dc a) h0 h9
-    refine ⟨run_year_none_time a b ha hb _, NoDateStart_of_head _ _ f1 f2, ?_, ?_, ?_, ?_⟩ <;>
-      (intro r' e'; cases e'; contradiction)
+    refine ⟨run_year_none_time _ _ _, NoDateStart_of_head _ _ f1 f2, ?_, ?_, ?_, ?_⟩
+    · intro r' e'; injection e' with e1 _; exact f3 e1
+    · intro r' e'; injection e' with e1 _; exact f4 e1
+    · intro r' e'; injection e' with e1 _; exact f5 e1
+    · intro r' e'; injection e' with e1 _; exact f6 e1
   · rw [e]
     rcases hc with rfl | rfl | rfl <;>
       exact noWideStart_of_head _ _ (by decide) (by simp [MonthLetter]) (by decide) (by decide)
@@ -229,9 +243,9 @@ theorem run_year_selector_none_start (inp : List Char) (hy : run g_year false in
     run g_year_selector false inp = none := by
   simp [g_year_selector, g_year_range, peg, hy]
 
-/-- `separator_for_readability?` finds nothing -/
-theorem run_opt_sep_none (inp : List Char) (h1 : ∀ r, inp ≠ ' ' :: r) (h2 : ∀ r, inp ≠ ':' :: r) :
-    run (.opt g_separator_for_readability) false inp = some ⟨[], [], inp⟩ := by
+/-- `separator_for_readability` finds nothing -/
+theorem run_sep_read_none (inp : List Char) (h1 : ∀ r, inp ≠ ' ' :: r) (h2 : ∀ r, inp ≠ ':' :: r) :
+    run g_separator_for_readability false inp = none := by
   cases inp with
   | nil => simp [g_separator_for_readability, peg]
   | cons c r =>
@@ -241,14 +255,14 @@ theorem run_opt_sep_none (inp : List Char) (h1 : ∀ r, inp ≠ ' ' :: r) (h2 : 
 
 theorem run_week_selector_none_start (inp : List Char) (h1 : ∀ r, inp ≠ ' ' :: r)
     (h2 : ∀ r, inp ≠ ':' :: r) (h3 : ∀ r, inp ≠ 'w' :: r) : run g_week_selector false inp = none := by
-  have hs := run_opt_sep_none inp h1 h2
+  have hs := run_sep_read_none inp h1 h2
   have hw : run (.str ['w', 'e', 'e', 'k'] : G) false inp = none := by
     cases inp with
     | nil => simp [peg]
     | cons c r =>
       have : 'w' ≠ c := by intro e; subst e; exact h3 r rfl
       simp [peg, this]
-  simp only [g_week_selector, run_rule, run_seq, Bool.or_self, hs, hw]
+  simp [g_week_selector, run_rule, run_seq, run_opt, hs, hw, R.nil]
 
 /-- no year, month-day or week selector is printed: `wide_range_selectors` produces its (empty) pair -/
 theorem parses_wide_empty (inp : List Char) (h : NoWideStart inp) :
@@ -259,11 +273,8 @@ theorem parses_wide_empty (inp : List Char) (h : NoWideStart inp) :
     have c2 := run_monthday_selector_none_start inp hy hd
     have c3 := run_year_selector_none_start inp hy
     have c4 := run_week_selector_none_start inp hsp hcol hw
-    have c5 := run_opt_sep_none inp hsp hcol
-    simp only [List.nil_append, g_wide_range_selectors, run_rule, run_alt, run_seq, run_opt, Bool.or_self,
-      c1, c2, c3, c4]
-    simp only [run_opt] at c5
-    simp [c5, R.append, R.nil]
+    have c5 := run_sep_read_none inp hsp hcol
+    simp [g_wide_range_selectors, run_rule, run_alt, run_seq, run_opt, c1, c2, c3, c4, c5, R.append, R.nil]
   · simp [buildWideRangeSelectors, wideLoop, assertRule, Tree.rule, Tree.kids, bind, Except.bind]
 
 end OH.Proofs.Syn
